@@ -249,6 +249,21 @@ def run_case(case):
                 if nc is not None and len(nc) == len(pdata.row_groups) and nc[gi] is not None:
                     if nc[gi] not in ({miss} if optional else {0, miss}):
                         return viol("api|null_count|" + tag, "statistics['null_count'][%r][%d]=%r, missing cells=%d" % (name, gi, nc[gi], miss), labels=labels)
+        # ---- nothing hidden: bounds stored in every row group of a column are exposed (the API collapses a column to
+        #      "nothing claimed" only when some row group has no bound or the stored bytes cannot be converted)
+        ngr = len(pdata.row_groups)
+        for (name, col), leaf in zip(want, pdata.leaves):
+            if col["kind"] == "json" or ngr == 0:
+                continue
+            for which in ("min", "max"):
+                raw_all = all(which in reader.read_statistics(rg.chunks[leaf.path], leaf) for rg in pdata.row_groups if leaf.path in rg.chunks)
+                if not raw_all or any(leaf.path not in rg.chunks for rg in pdata.row_groups):
+                    continue
+                lst = api_stats.get(which, {}).get(name)
+                if lst is None or len(lst) != ngr or any(x is None for x in lst):
+                    return viol("api|%s_hidden|%s" % (which, c01.col_tag(col)),
+                                "every row group stores a %s for column %r, statistics[%r][%r] = %r" % (which, name, which, name, lst),
+                                labels=labels)
         # ---- sorted_partitioned_columns
         try:
             spc = api.sorted_partitioned_columns(pf)
